@@ -26,6 +26,4 @@ def run(tier="quick", seed=0, use_cache=True):
     res.samples = obligations
     res.units = {"files": ["src/BTrees/Length.py"], "methods": 7}
     res.exhaustive = True
-    res.extra["obligations"] = len(obligations)
-    res.extra["discharged"] = len(obligations) if not findings else len(obligations) - len(findings)
     return res
